@@ -5,6 +5,7 @@ import TrucModel.Model.Machine
 import TrucModel.Model.Static
 import TrucModel.Model.CloneSerde
 import TrucModel.Model.TypeName
+import TrucModel.Model.MachineWF
 /-
   Line-protocol driver (channel L): one request per line on stdin, one answer per line on stdout.
 -/
@@ -390,7 +391,8 @@ def dstep (s : DState) (line : String) : DState × String :=
     match s.built, extra.toNat? with
     | some d, some ex =>
       match d.maxSize with
-      | some ms => ({ s with xs := { specs := Gen.specs d, cap := ms + ex, align := d.maxTypeAlign, regs := [] } }, "ok")
+      | some ms => ({ s with xs := { specs := Gen.specs d, cap := ms + ex, align := d.maxTypeAlign, regs := [] } },
+          s!"ok wf={Mach.moduleWFB X.droppable (ms + ex) (Gen.specs d)}")
       | none => (s, "panic")
     | _, _ => (s, "bad-op")
   | "x" :: toks =>
